@@ -63,6 +63,7 @@ def prod(t):
 
 def hyp_failures(rec, regrec=None):
     bad = []
+    regrec = rec.reg if regrec is None else regrec
     a = rec.num
     if rec.mixed_numerators:
         bad.append("divisions with different numerators in one planner call")
@@ -110,29 +111,17 @@ def show_stages(stages):
 
 
 def run_planner(kind, shape, src, tgt, itemsize, min_mem, max_mem):
-    """returns (answer string, stages or None, rec, reg-stage record)"""
+    """returns (answer string, stages or None, rec, rec.reg)"""
     A, R, O = mods()
-    regrec = {}
     with RR.recording() as rec:
-        orig = R.calculate_regular_stage_chunks
-
-        def crs(read_chunks, write_chunks, stage_count=1):
-            out = orig(read_chunks, write_chunks, stage_count)
-            regrec[int(stage_count)] = (tuple(read_chunks), tuple(write_chunks), [tuple(int(c) for c in s) for s in out])
-            return out
-        R.calculate_regular_stage_chunks = crs
+        f = A.multistage_rechunking_plan if kind == "irr" else R.multistage_regular_rechunking_plan
         try:
-            f = A.multistage_rechunking_plan if kind == "irr" else R.multistage_regular_rechunking_plan
-            try:
-                stages = f(tuple(shape), tuple(src), tuple(tgt), itemsize, min_mem, RR.TracedInt(max_mem))
-                stages = [tuple(tuple(int(c) for c in t) for t in st) for st in stages]
-                ans = show_stages(stages)
-            except Exception as e:  # noqa: BLE001 - every outcome is canonicalised
-                stages, ans = None, "error " + RR.canon_exc(e)
-        finally:
-            R.calculate_regular_stage_chunks = orig
-    # iterations never share a stage_count, so keying by stage_count is unambiguous
-    return ans, stages, rec, regrec
+            stages = f(tuple(shape), tuple(src), tuple(tgt), itemsize, min_mem, RR.TracedInt(max_mem))
+            stages = [tuple(tuple(int(c) for c in t) for t in st) for st in stages]
+            ans = show_stages(stages)
+        except Exception as e:  # noqa: BLE001 - every outcome is canonicalised
+            stages, ans = None, "error " + RR.canon_exc(e)
+    return ans, stages, rec, rec.reg
 
 
 def plan_request(kind, shape, src, tgt, itemsize, min_mem, max_mem, rec):
